@@ -31,6 +31,8 @@ for p in props:
         },
         "level_note": "Trusted base: the hgv C++ front-end (lexer, declaration index, statement/expression parser, CFG), the spec tables in hgv/props, "
                       "and the assumptions listed in the evidence file; decides the listed structural clauses (necessary conditions), not the behaviour as a whole. "
+                      "The thorough tier additionally cross-checks the front-end against g++'s own CFG dump of the same translation units (calls and exceptional edges, "
+                      "exit 2 on disagreement) and runs the rule self-test (seeded breaking edits must be reported, behaviour-preserving twins must stay silent). "
                       + "; ".join(mod.ASSUMPTIONS),
         "technique": mod.TECHNIQUE,
     })
